@@ -1281,8 +1281,7 @@ def oracle_registry(arg, out):
             else:
                 if o[0] == 0:
                     return 'find_plugin(%r, %s) found class %s although nothing is registered or installed' % (g, what, o[1])
-                if o[0] == 2 and not (name and name.startswith('.')):
-                    # (a NAME starting with a period trips an assertion in PluginNotFound: existing behaviour, outside the property)
+                if o[0] == 2:
                     return 'find_plugin(%r, %s): nothing to find is a pybtex error (PluginNotFound), got a foreign exception' % (g, what)
         else:
             g = S(c[1])
